@@ -19,11 +19,19 @@ def core_schema(mutation=True, subscription=True):
         union("Thing", ["User", "Org", "Cat"]),
         enum("Role", ["ADMIN", "member", "guest_user"]),
         scalar("Date"),
+        # names that are not stable under UpperCamelCase (normalization = rust must not leak to the wire)
+        scalar("date_time"),
+        enum("sort_order", ["ASC", "desc"]),
+        obj("http_error", [("code", "Int!"), ("stamp", "date_time"), ("order", "sort_order")]),
+        union("Outcome", ["User", "http_error"]),
+        inp("search_input", [("order", "sort_order"), ("term", "String"), ("at", "date_time")]),
         obj("Q", [("me", "User!"), ("node", "Node"), ("nodes", "[Node!]!"), ("named", "Named"), ("thing", "Thing"),
                   ("things", "[Thing]!"), ("pet", "Pet"),
                   FieldDef("user", "User", args=[("id", "ID!")]),
                   FieldDef("search", "[Node!]", args=[("filter", "Filter"), ("first", "Int", "1")]),
-                  ("userFriend", "User"), ("version", "String!"), ("count", "Int")]),
+                  ("userFriend", "User"), ("version", "String!"), ("count", "Int"),
+                  ("grid", "[[Int!]]!"), ("rows", "[[String!]!]"),
+                  FieldDef("find", "Outcome", args=[("input", "search_input")]), ("outcomes", "[Outcome!]")]),
         inp("Filter", [("text", "String"), ("role", "Role"), ("ids", "[ID!]"), ("and", "Filter"),
                        ("not", "[Filter!]"), ("range", "Range!"), ("pick", "Pick")]),
         inp("Range", [("from", "Int"), ("to", "Int")]),
@@ -50,6 +58,8 @@ def fragment_library():
     F["CatF"] = FragDef("CatF", "Cat", [Field("name"), Field("lives")])
     F["ThingF"] = FragDef("ThingF", "Thing", [TN(), Inline("Cat", [Field("lives")])])
     F["QF"] = FragDef("QF", "Q", [Field("version")])
+    F["UserT"] = FragDef("UserT", "User", [TN(), Field("name")])
+    F["CatT"] = FragDef("CatT", "Cat", [TN(), Field("lives")])
     F["UserRec"] = FragDef("UserRec", "User", [Field("id"), Field("friends", [Spread("UserRec")])])
     F["NodeRec"] = FragDef("NodeRec", "Node", [TN(), Field("id"),
                                                  Inline("User", [Field("friend", [Spread("NodeRec")])])])
@@ -95,7 +105,7 @@ def items_node():
         ("on User{name}", Inline("User", [Field("name")])), ("on User{age}", Inline("User", [Field("age")])),
         ("on Org{name}", Inline("Org", [Field("name")])), ("on Node{label}", Inline("Node", [Field("label")])),
         ("...NodeF", Spread("NodeF")), ("...UserA", Spread("UserA")), ("...UserB", Spread("UserB")),
-        ("...OrgF", Spread("OrgF")), ("...NodeRec", Spread("NodeRec")),
+        ("...OrgF", Spread("OrgF")), ("...NodeRec", Spread("NodeRec")), ("...UserT", Spread("UserT")),
     ]
 
 
@@ -104,7 +114,7 @@ def items_thing():
         ("on User{name}", Inline("User", [Field("name")])),
         ("on User{age}", Inline("User", [Field("age")])), ("on Cat{name}", Inline("Cat", [Field("name")])),
         ("...UserA", Spread("UserA")), ("...UserB", Spread("UserB")), ("...CatF", Spread("CatF")),
-        ("...ThingF", Spread("ThingF")),
+        ("...ThingF", Spread("ThingF")), ("...CatT", Spread("CatT")), ("...UserT", Spread("UserT")),
     ]
 
 
@@ -113,7 +123,7 @@ def items_root():
         ("version", Field("version")), ("count", Field("count")), ("v:version", Field("version", alias="v")),
         ("__typename", TN()), ("me", Field("me", [Field("id")])), ("node", Field("node", [TN(), Field("id")])),
         ("user", Field("user", [Field("name")], args=[("id", "$id")])), ("...QF", Spread("QF")),
-        ("on Q", Inline("Q", [Field("count")])),
+        ("on Q", Inline("Q", [Field("count")])), ("grid", Field("grid")), ("rows", Field("rows")),
     ]
 
 
